@@ -34,8 +34,8 @@ PROPS = {
             "thorough": [J("^vhC05_multi_T5$|^vhC05_windowreentrant_n3$|^vhC05_arity_s6$", samples=8, maxpaths=1000000), J("^vhC05_conc_v2$", preempt=0, samples=2, maxpaths=3000000), J("^vhC05_concsel_v1$", preempt=1, samples=2, maxpaths=3000000)], "bounds": {}, "assumptions": []},
     "C06": {"quick": [J("^vhC06_(inside_L2|wait_L1|collect_L2)$", preempt=1, samples=3), J("^vhC05_multi_T3$", samples=1, only_kinds=["deadlock"])], "thorough": [J("^vhC06_(inside_L3|collect_L3)$", preempt=2, samples=4, maxpaths=1500000), J("^vhC06_wait_L2$", preempt=1, samples=2, maxpaths=1500000), J("^vhC06_wait_L1$", preempt=2, samples=2, maxpaths=1500000)], "bounds": {}, "assumptions": []},
     "C08": {"quick": [J("^vhC08_(sync_L2|handoff_n2)$", preempt=1, samples=3), J("^vhC08_handoff_n5$", preempt=0, samples=2), J("^vhC17_tochannel_L2$", preempt=1, samples=2, timeshim=True, only_msgs="closed before the terminal|out of order|values differ|more notifications"), J("^vhC09_cancel_L2$", samples=2, only_msgs="no Error although")], "thorough": [J("^vhC08_(sync_L3|handoff_n3)$", preempt=2, samples=4), J("^vhC08_handoff_n5$", preempt=1, samples=2, maxpaths=2000000)], "bounds": {}, "assumptions": []},
-    "C14": {"quick": [J("^vhC14_ctx_L1$", preempt=0, samples=3, timeshim=True), J("^vhC14_early_L2$|^vhC14_multi_L2$", samples=4), J("^vhC03_subconc_(2|3)$", preempt=2, samples=1), J("^vhC11_share_K4$", samples=2, only_msgs="upstream subscription does not follow|more than one live"), J("^vhC17_fromchannel_L2$", preempt=1, samples=2, timeshim=True)], "thorough": [J("^vhC14_ctx_L2$", preempt=1, samples=3, timeshim=True), J("^vhC14_early_L3$|^vhC14_multi_L2$", preempt=1, samples=6), J("^vhC03_subconc_(2|3)$", preempt=3, samples=1)], "bounds": {}, "assumptions": []},
-    "C17": {"quick": [J("^vhC17_.*_L2$", preempt=1, samples=3, timeshim=True), J("^vhC12_reuse2_L2$", samples=2, only_msgs="^ToMap|^ToSlice|^Materialize|^Dematerialize"), J("^vhC14_early_L2$", samples=2, only_msgs="^ToMap|^ToSlice|^Materialize|^Dematerialize")], "thorough": [J("^vhC17_.*_L3$", preempt=1, samples=4, timeshim=True)], "bounds": {}, "assumptions": []},
+    "C14": {"quick": [J("^vhC14_ctx_L1$", preempt=0, samples=3, timeshim=True), J("^vhC14_early_L2$|^vhC14_multi_L2$", samples=4), J("^vhC03_subconc_(2|3)$", preempt=2, samples=1), J("^vhC11_share_K4$", samples=2, only_msgs="upstream subscription does not follow|more than one live"), J("^vhC17_fromchannel_L2$", preempt=1, samples=2, timeshim=True)], "thorough": [J("^vhC14_ctx_L2$", preempt=1, samples=3, timeshim=True), J("^vhC14_early_L3$|^vhC14_multi_L2$", preempt=1, samples=6, maxpaths=1500000), J("^vhC03_subconc_(2|3)$", preempt=3, samples=1)], "bounds": {}, "assumptions": []},
+    "C17": {"quick": [J("^vhC17_.*_L2$", preempt=1, samples=3, timeshim=True), J("^vhC12_reuse2_L2$", samples=2, only_msgs="^ToMap|^ToSlice|^Materialize|^Dematerialize"), J("^vhC14_early_L2$", samples=2, only_msgs="^ToMap|^ToSlice|^Materialize|^Dematerialize")], "thorough": [J("^vhC17_.*_L3$", preempt=1, samples=4, timeshim=True, maxpaths=2000000)], "bounds": {}, "assumptions": []},
     "C02": {"quick": [J("^vhC02_core_(2x2|3x1)$", preempt=0, samples=2), J("^vhC02_core_2x2$", preempt=1, samples=3, maxpaths=600000),
                       J("^vhC10_conc(via)?_|^vhC05_conc_v1$", preempt=0, samples=1, only_msgs="overlapped", maxpaths=600000),
                       J("^vhC13_time_n1$|^vhC02_ctx_n1$", preempt=1, samples=2, timeshim=True, only_msgs="overlapped|grammar|after a terminal|never emitted")],
@@ -51,9 +51,9 @@ PROPS = {
     "C13": {"quick": [J("^vhC02_core_2x2$|^vhC06_wait_L1$|^vhC08_handoff_n2$", preempt=1, races=True, only_kinds=["race", "crash"], samples=2, maxpaths=600000),
                       J("^vhC17_(tochannel|fromchannel)_L2$|^vhC13_time_n1$", preempt=1, races=True, only_kinds=["race", "crash"], samples=2, maxpaths=600000, timeshim=True),
                       J("^vhC10_conc_|^vhC05_conc_v1$", preempt=0, races=True, only_kinds=["race", "crash"], samples=1, maxpaths=600000)],
-            "thorough": [J("^vhC02_core_(2x2|3x1)$|^vhC06_wait_L2$|^vhC08_handoff_n3$", preempt=2, races=True, only_kinds=["race", "crash"], samples=2),
+            "thorough": [J("^vhC02_core_(2x2|3x1)$|^vhC06_wait_L2$", preempt=1, races=True, only_kinds=["race", "crash"], samples=2, maxpaths=2000000), J("^vhC08_handoff_n3$|^vhC06_wait_L1$", preempt=2, races=True, only_kinds=["race", "crash"], samples=2, maxpaths=2000000),
                          J("^vhC17_(tochannel|fromchannel)_L2$|^vhC13_time_n1$", preempt=2, races=True, only_kinds=["race", "crash"], samples=2, maxpaths=2000000, timeshim=True), J("^vhC13_time_n2$", preempt=1, races=True, only_kinds=["race", "crash"], samples=2, maxpaths=1500000, timeshim=True),
-                         J("^vhC10_conc_|^vhC05_conc_v2$|^vhC11_conc", preempt=1, races=True, only_kinds=["race", "crash"], samples=1, maxpaths=3000000)], "bounds": {}, "assumptions": []},
+                         J("^vhC10_conc_|^vhC11_conc|^vhC05_concsel_v1$", preempt=1, races=True, only_kinds=["race", "crash"], samples=1, maxpaths=3000000), J("^vhC05_conczip_v2$|^vhC05_conc_v1$", preempt=0, races=True, only_kinds=["race", "crash"], samples=1, maxpaths=3000000)], "bounds": {}, "assumptions": []},
     "C15": {"quick": [J("^vhC15_(retry|repeat|loop|chain)_A2$", samples=4), J("^vhC15_.*async_A2$", preempt=1, samples=2, maxpaths=600000)], "thorough": [J("^vhC15_(retry|repeat|loop|chain)_A(2|3)$", samples=8), J("^vhC15_.*async_A2$", preempt=2, samples=2, maxpaths=3000000)], "bounds": {}, "assumptions": []},
     "C16": {"quick": [J("^vhC16_.*2$", samples=2, timeshim=True), J("^vhC14_ctx_L1$", samples=2, timeshim=True, only_msgs="long after the subscription context")], "thorough": [J("^vhC16_(delay|timeout|throttle)_n3$|^vhC16_sample_n2$", samples=2, timeshim=True, solver_timeout_ms=60000, solver="z3-new"), J("^vhC16_interval_c2$|^vhC16_overlap_2$|^vhC16_delayctx_2$", samples=2, timeshim=True, xcheck="z3-new", xrate=5)], "bounds": {}, "assumptions": []},
     "C10": {"quick": [J("^vhC10_seq_.*_K4$", samples=3), J("^vhC10_conc(via)?_", preempt=0, samples=1), J("^vhC10_conc_(behavior|unicast|async)|^vhC10_concsub_", preempt=1, samples=1)], "thorough": [J("^vhC10_seq_.*_K5$", samples=6), J("^vhC10_conc(via)?_", preempt=0, samples=1), J("^vhC10_conc_|^vhC10_concsub_", preempt=2, samples=1, maxpaths=3000000)],
